@@ -104,6 +104,10 @@ def run(report, tier):
     report.extra['invalidation_triples_in_model'] = len(triples)
     k = 1200 if tier == 'quick' else 12000
     sample, report.extra['strata (fill, edit, observation) all covered'] = histgraph.stratified(triples, k, rng)
+    repl = histgraph.replacement_histories(triples)
+    report.extra['objective replacement matrix (o1, constraint?, method, o2)'] = len(repl)
+    seen = set(map(id, sample))
+    sample += [h for h in repl if id(h) not in seen]
     batch = []
     for part in histrun.parallel(replay_chunk, sample):
         batch += part.pop('batch')
